@@ -572,7 +572,14 @@ func (en *c05Engine) check(p *gx, family string) {
 		defect = "C05/overload/poly-overload-chosen-by-bottom-wildcard-then-rejected"
 	}
 	key := func(generic string) string {
-		if defect != "" {
+		// the two known defects have a fixed symptom: the real checker
+		// REJECTS (or, for the mono lookup, lets a later polymorphic overload
+		// take the call); an ill-typed program that is accepted is never one
+		// of them
+		if defect != "" && !strings.HasPrefix(generic, "C05/accepts-ill-typed") {
+			if en.ref.skippedBotOnly && !strings.HasPrefix(generic, "C05/rejects-well-typed") {
+				return generic
+			}
 			return defect
 		}
 		return generic
